@@ -30,11 +30,11 @@ type fakeClock struct {
 	now time.Time
 }
 
-func (c *fakeClock) Now() time.Time                    { c.mu.Lock(); defer c.mu.Unlock(); return c.now }
-func (c *fakeClock) set(t time.Time)                   { c.mu.Lock(); c.now = t; c.mu.Unlock() }
-func (c *fakeClock) At(time.Time) <-chan time.Time     { return make(chan time.Time) }
+func (c *fakeClock) Now() time.Time                       { c.mu.Lock(); defer c.mu.Unlock(); return c.now }
+func (c *fakeClock) set(t time.Time)                      { c.mu.Lock(); c.now = t; c.mu.Unlock() }
+func (c *fakeClock) At(time.Time) <-chan time.Time        { return make(chan time.Time) }
 func (c *fakeClock) After(time.Duration) <-chan time.Time { return make(chan time.Time) }
-func (c *fakeClock) Every(time.Duration) clock.Ticker  { panic("unused") }
+func (c *fakeClock) Every(time.Duration) clock.Ticker     { panic("unused") }
 
 var base = time.Unix(1_700_000_000, 0).UTC()
 
